@@ -26,10 +26,10 @@ func init() {
 			"the later-time oracle: sum of LockedCoins over the family vs LockedCoins of the untouched original account (SDK account type as schedule function) at sampled times, slack (4*splits+2)*(1+3e-18*original). " +
 			"(b) even indices: arithmetic sweep, 1500 splits per case straight through the module's message server on fresh continuous vesting accounts: original vesting 1..10^30, all time positions, amounts {1..5, locked, locked-1, random}, and hostile families (dyadic/short time fractions giving .5 ties, originals >= 2*10^18 of both parities, amounts u with u*OV = -j mod vesting). " +
 			"Non-trivial: (a) >=3 successful splits incl. a chain of depth>=2; (b) >=50 hostile-family splits executed. Distinct by history / sweep seed.",
-		Assumptions: []string{"SDK ContinuousVestingAccount.LockedCoins is the schedule function (its 18-decimal time scalar is part of the documented behaviour)", "later-time slack derived in DESIGN.md C07"},
-		Cases:       func(t string) int { return tierN(t, 96, 6000) },
+		Assumptions:   []string{"SDK ContinuousVestingAccount.LockedCoins is the schedule function (its 18-decimal time scalar is part of the documented behaviour)", "later-time slack derived in DESIGN.md C07"},
+		Cases:         func(t string) int { return tierN(t, 96, 6000) },
 		MinNontrivial: func(t string) int { return tierN(t, 30, 2000) },
-		Run:         runC07,
+		Run:           runC07,
 	})
 }
 
